@@ -68,14 +68,67 @@ func init() {
 						continue
 					}
 					if d.Name.Name == "compareDatesForLetter" && d.Recv == nil {
+						// locals: which variable holds the truncated time of which parameter; local constants
+						// equal to 24 * time.Hour; then the cases as a tagless switch or as a chain of
+						// `if c { return "x" }`, and the final return
+						role := map[string]string{} // local -> "valueTime" | "startTime" | "endTime"
+						dayConst := map[string]bool{}
+						isDay := func(e ast.Expr) bool {
+							if id, ok := e.(*ast.Ident); ok {
+								return dayConst[id.Name]
+							}
+							return printNode(fset, e) == "24 * time.Hour"
+						}
+						oneCase := func(cond ast.Expr, body []ast.Stmt) {
+							ok := false
+							if call, isCall := cond.(*ast.CallExpr); isCall && len(call.Args) == 1 && len(body) == 1 {
+								sel, _ := call.Fun.(*ast.SelectorExpr)
+								arg, _ := call.Args[0].(*ast.Ident)
+								ret, _ := body[0].(*ast.ReturnStmt)
+								if sel != nil && arg != nil && ret != nil && len(ret.Results) == 1 {
+									x, _ := sel.X.(*ast.Ident)
+									lit, _ := ret.Results[0].(*ast.BasicLit)
+									if x != nil && role[x.Name] == "valueTime" && lit != nil && (role[arg.Name] == "startTime" || role[arg.Name] == "endTime") {
+										l, _ := strconv.Unquote(lit.Value)
+										cases = append(cases, fmt.Sprintf("(%s, %s, %s)", strconv.Quote(sel.Sel.Name), strconv.Quote(role[arg.Name]), strconv.Quote(l)))
+										ok = true
+									}
+								}
+							}
+							if !ok {
+								cases = append(cases, `("?", "?", "?")`)
+							}
+						}
 						for _, st := range d.Body.List {
 							switch st := st.(type) {
+							case *ast.DeclStmt:
+								// const oneDay = 24 * time.Hour
+								if gd, ok := st.Decl.(*ast.GenDecl); ok && gd.Tok == token.CONST {
+									for _, sp := range gd.Specs {
+										if vs, ok := sp.(*ast.ValueSpec); ok && len(vs.Names) == 1 && len(vs.Values) == 1 && printNode(fset, vs.Values[0]) == "24 * time.Hour" {
+											dayConst[vs.Names[0].Name] = true
+										}
+									}
+								}
 							case *ast.AssignStmt:
-								// xTime := x.Time().Truncate(24 * time.Hour)
-								txt := printNode(fset, st)
-								for _, v := range []string{"value", "start", "end"} {
-									if txt == v+"Time := "+v+".Time().Truncate(24 * time.Hour)" {
-										trunc++
+								// x := <param>.Time().Truncate(<day>)
+								if len(st.Lhs) == 1 && len(st.Rhs) == 1 && st.Tok == token.DEFINE {
+									id, _ := st.Lhs[0].(*ast.Ident)
+									call, _ := st.Rhs[0].(*ast.CallExpr)
+									if id != nil && call != nil && len(call.Args) == 1 && isDay(call.Args[0]) {
+										if sel, ok := call.Fun.(*ast.SelectorExpr); ok && sel.Sel.Name == "Truncate" {
+											if c2, ok := sel.X.(*ast.CallExpr); ok && len(c2.Args) == 0 {
+												if s2, ok := c2.Fun.(*ast.SelectorExpr); ok && s2.Sel.Name == "Time" {
+													if pid, ok := s2.X.(*ast.Ident); ok {
+														switch pid.Name {
+														case "value", "start", "end":
+															role[id.Name] = pid.Name + "Time"
+															trunc++
+														}
+													}
+												}
+											}
+										}
 									}
 								}
 							case *ast.SwitchStmt:
@@ -85,33 +138,26 @@ func init() {
 								}
 								for _, cc := range st.Body.List {
 									c := cc.(*ast.CaseClause)
-									ok := false
-									if len(c.List) == 1 && len(c.Body) == 1 {
-										if call, isCall := c.List[0].(*ast.CallExpr); isCall && len(call.Args) == 1 {
-											sel, _ := call.Fun.(*ast.SelectorExpr)
-											arg, _ := call.Args[0].(*ast.Ident)
-											ret, _ := c.Body[0].(*ast.ReturnStmt)
-											if sel != nil && arg != nil && ret != nil && len(ret.Results) == 1 {
-												x, _ := sel.X.(*ast.Ident)
-												lit, _ := ret.Results[0].(*ast.BasicLit)
-												if x != nil && x.Name == "valueTime" && lit != nil {
-													l, _ := strconv.Unquote(lit.Value)
-													cases = append(cases, fmt.Sprintf("(%s, %s, %s)", strconv.Quote(sel.Sel.Name), strconv.Quote(arg.Name), strconv.Quote(l)))
-													ok = true
-												}
-											}
-										}
-									}
-									if !ok {
+									if len(c.List) == 1 {
+										oneCase(c.List[0], c.Body)
+									} else {
 										cases = append(cases, `("?", "?", "?")`)
 									}
 								}
+							case *ast.IfStmt:
+								if st.Init != nil || st.Else != nil {
+									cases = append(cases, `("?", "?", "?")`)
+									continue
+								}
+								oneCase(st.Cond, st.Body.List)
 							case *ast.ReturnStmt:
 								if len(st.Results) == 1 {
 									if lit, ok := st.Results[0].(*ast.BasicLit); ok {
 										dflt, _ = strconv.Unquote(lit.Value)
 									}
 								}
+							default:
+								cases = append(cases, `("?", "?", "?")`)
 							}
 						}
 					}
